@@ -23,6 +23,7 @@ const (
 const (
 	MaxCertificateLength = (1 << 24) - 1
 	MaxExtensionsLength  = (1 << 16) - 1
+	MaxSignatureLength   = (1 << 16) - 1
 )
 
 func writeUint(w io.Writer, value uint64, numBytes int) error {
@@ -231,6 +232,9 @@ func UnmarshalDigitallySigned(r io.Reader) (*DigitallySigned, error) {
 
 func marshalDigitallySignedHere(ds DigitallySigned, here []byte) ([]byte, error) {
 	sigLen := len(ds.Signature)
+	if sigLen > MaxSignatureLength {
+		return nil, errors.New("signature too large")
+	}
 	dsOutLen := 2 + SignatureLengthBytes + sigLen
 	if here == nil {
 		here = make([]byte, dsOutLen)
